@@ -48,7 +48,7 @@ func TestC29VersionUpgradeOnlyWhenIdle(t *testing.T) {
 		allTerminal := true
 		var states []string
 		for i := 0; i < nswaps; i++ {
-			sm, _ := genRecord(t)
+			sm, _, _ := genRecord(t)
 			// bias towards terminal states so that "all terminal" stores with several swaps are common
 			if rapid.IntRange(0, 2).Draw(t, "terminalBias") > 0 {
 				sm.Current = rapid.SampledFrom([]swap.StateType{swap.State_ClaimedCsv, swap.State_SwapCanceled, swap.State_ClaimedPreimage, swap.State_ClaimedCoop}).Draw(t, "tstate")
